@@ -15,16 +15,19 @@ META = dict(
                '(3) the specification "same effective arguments passed directly"; differential correspondence of all three against the code and the '
                'interpreter; Functor._parse_call_time_overrides regenerated from the source by a fail-closed ast translator into a deep-embedded program (Gen/BindingCallTime.v) that is proved equal to the hand model on a finite grid and compared with it on every case of every run; direct differential oracle against the original callable'),
     design_ref='DESIGN.md §5 C18',
-    level_text=('Theorems: for every signature (any number of positional parameters with or without defaults, *args, keyword-only parameters, **kwargs) and every '
+    level_text=('Theorems: for every signature (any number of positional parameters with or without defaults, positional-only ones, *args, keyword-only parameters, **kwargs) and every '
                 'construction call, sequence of later bindings, call-time arguments and override/ignore_extra flags, the functor model yields exactly what the '
                 'language rule yields on the effective call, or TypeError in both; the bookkeeping (specified arguments, stored attributes) describes the effective '
                 'arguments; clone and JSON round trip preserve them; the generated __init__ signature equals the original; the same for symbolized classes. '
                 'Tie: the model of the language rule is run against the interpreter itself (a real call and inspect.signature.bind), the functor / class model against '
                 'pg.functor / pg.symbolize objects, the effective-call specification against an independent Python reading; a direct oracle compares every case with a '
                 'direct call of the original function.'),
-    level_note=('Trusted: Coq kernel; extraction (ExtrOcamlBasic) cross-checked against vm_compute; the hand-written model of functor.py/object.py/class_wrapper.py/'
-                'callable_signature.py (tied by the correspondence run only, no translator). Not modelled: dict iteration order (unobservable through ==), value specs '
-                'other than Any/int annotations, positional-only parameters, MISSING_VALUE as an argument, subclassed functors (pg.Functor subclasses with _call).'),
+    level_note=('Trusted: Coq kernel; extraction (ExtrOcamlBasic) cross-checked against vm_compute; the translator for _parse_call_time_overrides and the interpreter of its '
+                'Python subset; the hand-written model of Functor.__init__/_on_change, object.py __init__, class_wrapper.py _call_init and callable_signature.py '
+                '(tied by the correspondence run only). The regenerated call-time code is proved equal to the hand model on a finite grid, not for all inputs. '
+                'Not modelled: dict iteration order (unobservable through ==), value specs other than Any/int annotations, MISSING_VALUE as an argument; '
+                'subclasses of symbolized classes and pg.Functor subclasses with _call are covered by correspondence against the class / functor model and by the oracle, '
+                'without a model of their own.'),
     rule=('a case is (signature, symbolization kind, construction call, flags, later bindings, call-time arguments, call-time flags, clone/JSON step); distinct by all '
           'of these; non-trivial when at least two of the supply routes (construction, later binding, call time) carry an argument or an error is expected'),
     trusted_base=['translator harness/translators/binding_calltime.py (fail-closed ast reader; conventions: value-spec apply is the identity on untyped arguments, exception messages are not evaluated, utils.auto_plural/comma_delimited_str are message helpers) and the interpreter coq/Model/BindingLang.v of the Python subset',
